@@ -9,19 +9,9 @@ use std::io::{BufRead, Write};
 
 use rten_shape_inference::SymExpr;
 use vh_shapeinfer::*;
+use vh_shapeinfer::cases::*;
 
 // ------------------------------------------------------------------ Coq operator term
-const UNARY_OPS: &[&str] = &[
-    "Abs", "Acos", "Acosh", "Asin", "Asinh", "Atan", "Atanh", "Ceil", "Clip", "Cos", "Cosh", "Elu", "Erf", "Exp",
-    "Floor", "Gelu", "HardSigmoid", "HardSwish", "IsInf", "IsNaN", "LeakyRelu", "Log", "Not", "Reciprocal", "Relu",
-    "Round", "Sigmoid", "Sign", "Sin", "Sinh", "Softplus", "Sqrt", "Swish", "Tan", "Tanh", "Softmax", "LogSoftmax",
-];
-const BINARY_OPS: &[&str] = &["And", "Or", "Xor", "Greater", "GreaterOrEqual", "Less", "LessOrEqual", "Pow", "Mod"];
-const REDUCE_OPS: &[&str] = &[
-    "ReduceL1", "ReduceL2", "ReduceLogSum", "ReduceLogSumExp", "ReduceMax", "ReduceMean", "ReduceMin", "ReduceProd",
-    "ReduceSum", "ReduceSumSquare",
-];
-
 fn opt_z(v: Option<i64>) -> String {
     match v { Some(x) => format!("(Some {})", coq_z(x)), None => "None".to_string() }
 }
@@ -142,513 +132,147 @@ fn exec_line(line: &str) -> (String, String) {
     (tag, format!("{{| c_name := \"{}\"%string; c_op := {}; c_in := {}; c_res := {}; c_insts := [{}] |}}", c.op, op_coq, ins_coq, res_coq, insts.join("; ")))
 }
 
-// ------------------------------------------------------------------ gen
-struct G { r: SplitMix64 }
+// ------------------------------------------------------------------ graph-level cases
+// `G#<dims of x; text exprs>#<op;op;...>#<envs>`: a chain of shape-computing operators starting
+// at the float input x, run through the real graph driver `infer_shapes` (constants -> symbolic
+// values, simplify, complexity limit) and `Graph::run`.  Encoded as one case whose "outputs" are
+// all value nodes of the graph.
+const GOPS: &[&str] = &["Shape", "Gather0", "Gather1", "GatherM1", "GatherV", "Unsq0", "Sq0", "Add1i", "Mul2i", "Sub1i", "Sub5i",
+    "Div2i", "Div2f", "Mul15f", "Add1f", "CastI", "CastF", "Neg", "Equal0", "Equal3", "Where79", "ConcatS", "COS", "COSf", "Range0",
+    "ReshapeX", "ExpandC", "SliceX", "Size", "Flatten", "Transpose", "ReduceSum0", "Identity", "Relu", "MatMulW"];
 
-fn v(n: i32) -> SymExpr { SymExpr::Value(n) }
+fn gnode_op(k: usize, name: &str, prev: &str, nodes: &mut Vec<rten::verif::shapeinfer::GNode>, names: &mut Vec<String>) -> Option<String> {
+    use rten::verif::shapeinfer::GNode;
+    let mut consts: Vec<(char, Vec<usize>, Vec<i64>)> = vec![];
+    let mut attrs: Vec<(String, Attr)> = vec![];
+    let a = |n: &str, v: Attr| vec![(n.to_string(), v)];
+    // inputs: P = prev, X = graph input, C<j> = j-th constant
+    let (op, ins): (&str, Vec<&str>) = match name {
+        "Shape" => ("Shape", vec!["P"]),
+        "Gather0" => { consts.push(('i', vec![], vec![0])); ("Gather", vec!["P", "C0"]) }
+        "Gather1" => { consts.push(('i', vec![], vec![1])); ("Gather", vec!["P", "C0"]) }
+        "GatherM1" => { consts.push(('i', vec![], vec![-1])); ("Gather", vec!["P", "C0"]) }
+        "GatherV" => { consts.push(('i', vec![2], vec![0, 1])); ("Gather", vec!["P", "C0"]) }
+        "Unsq0" => { consts.push(('i', vec![1], vec![0])); ("Unsqueeze", vec!["P", "C0"]) }
+        "Sq0" => { consts.push(('i', vec![1], vec![0])); ("Squeeze", vec!["P", "C0"]) }
+        "Add1i" => { consts.push(('i', vec![], vec![1])); ("Add", vec!["P", "C0"]) }
+        "Mul2i" => { consts.push(('i', vec![], vec![2])); ("Mul", vec!["P", "C0"]) }
+        "Sub1i" => { consts.push(('i', vec![], vec![1])); ("Sub", vec!["P", "C0"]) }
+        "Sub5i" => { consts.push(('i', vec![], vec![5])); ("Sub", vec!["P", "C0"]) }
+        "Div2i" => { consts.push(('i', vec![], vec![2])); ("Div", vec!["P", "C0"]) }
+        "Div2f" => { consts.push(('f', vec![], vec![2])); ("Div", vec!["P", "C0"]) }
+        "Mul15f" => { consts.push(('h', vec![], vec![3])); ("Mul", vec!["P", "C0"]) }   // 'h' = halves: 3 -> 1.5
+        "Add1f" => { consts.push(('f', vec![], vec![1])); ("Add", vec!["P", "C0"]) }
+        "CastI" => { attrs = a("to", Attr::Int(7)); ("Cast", vec!["P"]) }
+        "CastF" => { attrs = a("to", Attr::Int(1)); ("Cast", vec!["P"]) }
+        "Neg" => ("Neg", vec!["P"]),
+        "Equal0" => { consts.push(('i', vec![], vec![0])); ("Equal", vec!["P", "C0"]) }
+        "Equal3" => { consts.push(('i', vec![], vec![3])); ("Equal", vec!["P", "C0"]) }
+        "Where79" => { consts.push(('i', vec![], vec![7])); consts.push(('i', vec![], vec![9])); ("Where", vec!["P", "C0", "C1"]) }
+        "ConcatS" => { consts.push(('i', vec![1], vec![4])); attrs = a("axis", Attr::Int(0)); ("Concat", vec!["P", "C0"]) }
+        "COS" => { attrs = a("value", Attr::Tensor('i', vec![1], vec![3])); ("ConstantOfShape", vec!["P"]) }
+        "COSf" => ("ConstantOfShape", vec!["P"]),
+        "Range0" => { consts.push(('i', vec![], vec![0])); consts.push(('i', vec![], vec![1])); ("Range", vec!["C0", "P", "C1"]) }
+        "ReshapeX" => ("Reshape", vec!["X", "P"]),
+        "ExpandC" => { consts.push(('f', vec![], vec![1])); ("Expand", vec!["C0", "P"]) }
+        "SliceX" => { consts.push(('i', vec![1], vec![0])); consts.push(('i', vec![1], vec![0])); ("Slice", vec!["X", "C0", "P", "C1"]) }
+        "Size" => ("Size", vec!["P"]),
+        "Flatten" => ("Flatten", vec!["P"]),
+        "Transpose" => ("Transpose", vec!["P"]),
+        "ReduceSum0" => { consts.push(('i', vec![1], vec![0])); attrs = a("keepdims", Attr::Int(0)); ("ReduceSum", vec!["P", "C0"]) }
+        "Identity" => ("Identity", vec!["P"]),
+        "Relu" => ("Relu", vec!["P"]),
+        "MatMulW" => { consts.push(('f', vec![4, 2], vec![1])); ("MatMul", vec!["P", "C0"]) }
+        _ => return None,
+    };
+    let mut in_names = vec![];
+    for i in &ins {
+        in_names.push(Some(match *i {
+            "P" => prev.to_string(),
+            "X" => "v0".to_string(),
+            c => {
+                let j: usize = c[1..].parse().unwrap();
+                let (dt, shape, vals) = &consts[j];
+                let cname = format!("c{}_{}", k, j);
+                let value = if *dt == 'h' {
+                    rten::Value::from(rten_tensor::Tensor::from_data(shape, vals.iter().map(|v| *v as f32 / 2.0).collect::<Vec<f32>>()))
+                } else { make_value(*dt, shape, vals) };
+                nodes.push(GNode::Constant { name: cname.clone(), value });
+                names.push(cname.clone());
+                cname
+            }
+        }));
+    }
+    let oname = format!("v{}", k + 1);
+    nodes.push(GNode::Value { name: oname.clone(), dtype: None, shape: None });
+    names.push(oname.clone());
+    let present: Vec<bool> = in_names.iter().map(|_| true).collect();
+    let bytes = onnx_model(op, "", &attrs, &present, 1, OPSET);
+    nodes.push(GNode::Op { name: format!("op{}", k), model_bytes: bytes, index: 0, inputs: in_names, outputs: vec![Some(oname.clone())] });
+    Some(oname)
+}
 
-impl G {
-    fn sym(&mut self, pos: bool) -> SymExpr { let id = self.r.below(4) as usize; mk_var(id, pos) }
-    /// a dimension size: mostly fixed small values and positive symbols
-    fn dim(&mut self) -> SymExpr {
-        match self.r.below(12) {
-            0 => v(0),
-            1 | 2 => v(1),
-            3 => v(2),
-            4 => v(3),
-            5 => v(self.r.below(6) as i32),
-            6..=9 => self.sym(true),
-            10 => bin("+", self.sym(true), v(1 + self.r.below(2) as i32)),
-            _ => bin("*", v(2), self.sym(true)),
+fn exec_graph_line(line: &str) -> (String, String) {
+    use rten::verif::shapeinfer::{GNode, InferredShape, build_graph};
+    use rten::{DataType, Dimension, ValueType};
+    let f: Vec<&str> = line.split('#').collect();
+    let dims: Vec<SymExpr> = f[1].split(';').filter(|s| !s.trim().is_empty()).map(|s| parse_expr(s)).collect();
+    let ops: Vec<&str> = f[2].split(';').filter(|s| !s.is_empty()).collect();
+    let envs = Case::parse(&format!("X#-#1##{}", f[3])).envs;
+    let gdims: Vec<Dimension> = dims.iter().map(|d| match d {
+        SymExpr::Value(v) => Dimension::Fixed(*v as usize),
+        SymExpr::Var(s) => Dimension::Symbolic(s.name.clone()),
+        _ => Dimension::Fixed(1),
+    }).collect();
+    let build = || -> Option<(rten::verif::shapeinfer::VGraph, Vec<String>)> {
+        let mut nodes = vec![GNode::Value { name: "v0".into(), dtype: Some(ValueType::Tensor(DataType::Float)), shape: Some(gdims.clone()) }];
+        let mut names = vec!["v0".to_string()];
+        let mut prev = "v0".to_string();
+        for (k, o) in ops.iter().enumerate() { prev = gnode_op(k, o, &prev, &mut nodes, &mut names)?; }
+        let g = no_panic(|| build_graph(nodes, &["v0"], &[prev.as_str()]))?.ok()?;
+        Some((g, names))
+    };
+    let bad = || ("trivial-badgraph".to_string(), "{| c_name := \"graph\"%string; c_op := OOther; c_in := []; c_res := IPanic; c_insts := [] |}".to_string());
+    let (vg, names) = match build() { Some(x) => x, None => return bad() };
+    let vals: Vec<String> = names.iter().filter(|n| n.starts_with('v') && *n != "v0").cloned().collect();
+    let inferred = match no_panic(|| vg.infer(false, 10)) { Some(Ok(l)) => l, _ => return bad() };
+    let synth = std::cell::Cell::new(0u64);
+    let outs: Vec<String> = vals.iter().map(|n| {
+        match inferred.iter().find(|(x, _, _)| x == n).and_then(|(_, s, _)| s.clone()) {
+            Some(InferredShape::Constant(isvec, v)) => if isvec { format!("(TVector {})", coq_list(&v, |x| format!("(Value {})", coq_z(*x as i64)))) }
+                                                       else { format!("(TScalar (Value {}))", coq_z(v[0] as i64)) },
+            Some(InferredShape::Shape(ds)) => format!("(TShape {})", coq_list(&ds, |d| match d {
+                Dimension::Fixed(n) => format!("(Value {})", n),
+                Dimension::Symbolic(name) => match NAMES.iter().position(|x| x == name) {
+                    Some(id) => format!("(Var {} true)", id),
+                    // an expression or generated symbol, rendered as text by the driver: no claim
+                    None => { synth.set(synth.get() + 1); format!("(Var {} true)", 100 + synth.get()) }
+                },
+            })),
+            None => "TUnknown".to_string(),
         }
-    }
-    fn shape(&mut self, rank: usize) -> Vec<SymExpr> { (0..rank).map(|_| self.dim()).collect() }
-    fn rank(&mut self) -> usize { self.r.pick(&[0usize, 1, 1, 2, 2, 2, 3, 3, 4]) }
-    /// an element of a shape-carrying value
-    fn elem(&mut self, depth: u32) -> SymExpr {
-        match self.r.below(if depth == 0 { 8 } else { 13 }) {
-            0 => v(0),
-            1 => v(1),
-            2 => v(self.r.below(9) as i32 - 3),
-            3 => v(self.r.pick(&[-1, 2, 3, 4, 7, 2147483647, -2147483648i32 + 1])),
-            4 | 5 => self.sym(true),
-            6 => self.sym(false),
-            7 => self.sym(true),
-            8 => bin("+", self.elem(depth - 1), self.elem(depth - 1)),
-            9 => bin("-", self.elem(depth - 1), self.elem(depth - 1)),
-            10 => bin("*", self.elem(depth - 1), self.elem(depth - 1)),
-            11 => SymExpr::Neg(self.elem(depth - 1).into()),
-            _ => bin(self.r.pick(&["/", "max", "min", "dc"]), self.elem(depth - 1), self.elem(depth - 1)),
-        }
-    }
-    fn small_elem(&mut self) -> SymExpr {
-        match self.r.below(6) { 0 => v(0), 1 => v(1), 2 => v(self.r.below(7) as i32 - 2), 3 => self.sym(false), _ => self.sym(true) }
-    }
-    fn vec(&mut self, len: usize, depth: u32) -> Vec<SymExpr> { (0..len).map(|_| self.elem(depth)).collect() }
-    fn ivals(&mut self, l: &[i32]) -> Vec<SymExpr> { l.iter().map(|x| v(*x)).collect() }
-    fn inp(dt: char, sym: Sym) -> Input { Input { dt, sym, data: None } }
-    fn inpd(dt: char, sym: Sym, data: Vec<i64>) -> Input { Input { dt, sym, data: Some(data) } }
-
-    fn envs(&mut self) -> Vec<Vec<(usize, i32)>> {
-        let all = |x: i32| (0..4).map(|k| (k, x)).collect::<Vec<_>>();
-        let mut out = vec![all(0), all(1), all(2)];
-        for _ in 0..3 {
-            out.push((0..4).map(|k| (k, self.r.pick(&[0, 1, 1, 2, 3, 4, 5]))).collect());
-        }
-        // negative values for unconstrained symbols (positive symbols stay >= 0 only if they
-        // are never declared positive in this case; the Coq side filters with pos_ok)
-        out.push((0..4).map(|k| (k, self.r.pick(&[-3, -2, -1, 0, 1, 2]))).collect());
-        out.push((0..4).map(|k| (k, self.r.pick(&[-1, 0, 1]))).collect());
-        out
-    }
-    fn case(&mut self, op: &str, attrs: Vec<(&str, Attr)>, nout: usize, inputs: Vec<Input>) -> String {
-        let (op, domain) = match op.split_once('@') { Some((o, d)) => (o, d), None => (op, "") };
-        Case { op: op.to_string(), domain: domain.to_string(),
-               attrs: attrs.into_iter().map(|(n, a)| (n.to_string(), a)).collect(),
-               nout, inputs, envs: self.envs() }.to_line()
-    }
-
-    /// a symbolic value tensor: scalar or vector
-    fn value_tensor(&mut self, depth: u32) -> Sym {
-        if self.r.chance(1, 3) { Sym::Scalar(self.elem(depth)) } else { let n = self.r.below(4) as usize; Sym::Vector(self.vec(n, depth)) }
-    }
-    fn any_tensor(&mut self) -> Sym {
-        match self.r.below(10) {
-            0 => Sym::Unknown({ let rk = self.r.below(3) as usize; (0..rk).map(|_| 1 + self.r.below(3) as usize).collect() }),
-            1..=3 => self.value_tensor(1),
-            _ => { let rk = self.rank(); Sym::Shape(self.shape(rk)) }
-        }
-    }
-
-    // ---------------- modelled operators: targeted generators
-    fn gen_modelled(&mut self) -> String {
-        match self.r.below(24) {
-            0 => { // generic binary op on shapes
-                let op = self.r.pick(BINARY_OPS);
-                let dt = if ["And", "Or", "Xor", "Mod"].contains(&op) { 'i' } else { 'f' };
-                let (a, b) = self.bcast_pair();
-                let attrs = if op == "Mod" { vec![] } else { vec![] };
-                self.case(op, attrs, 1, vec![Self::inp(dt, a), Self::inp(dt, b)])
-            }
-            1 | 2 | 3 => { // arithmetic on values / shapes
-                let op = self.r.pick(&["Add", "Sub", "Mul", "Div", "Equal", "Equal"]);
-                if self.r.chance(2, 3) {
-                    let (a, b) = self.value_pair();
-                    self.case(op, vec![], 1, vec![Self::inp('i', a), Self::inp('i', b)])
-                } else {
-                    let (a, b) = self.bcast_pair();
-                    let dt = self.r.pick(&['f', 'i']);
-                    self.case(op, vec![], 1, vec![Self::inp(dt, a), Self::inp(dt, b)])
-                }
-            }
-            4 => { // Equal with range-sensitive operands
-                let a = self.range_elem();
-                let b = self.range_elem();
-                let (a, b) = if self.r.chance(1, 2) { (Sym::Scalar(a), Sym::Scalar(b)) } else { (Sym::Vector(vec![a, self.range_elem()]), Sym::Vector(vec![b, self.range_elem()])) };
-                self.case("Equal", vec![], 1, vec![Self::inp('i', a), Self::inp('i', b)])
-            }
-            5 => { // Where
-                if self.r.chance(2, 3) {
-                    let n = self.r.pick(&[1usize, 1, 2, 3]);
-                    let c: Vec<SymExpr> = (0..self.r.pick(&[1usize, n])).map(|_| match self.r.below(5) { 0 | 1 => v(0), 2 | 3 => v(1), _ => self.sym(true) }).collect();
-                    let cond = if c.len() == 1 && self.r.chance(1, 2) { Sym::Scalar(c[0].clone()) } else { Sym::Vector(c) };
-                    let x = if self.r.chance(1, 3) { Sym::Scalar(self.elem(1)) } else { let k = self.r.pick(&[1usize, n]); Sym::Vector(self.vec(k, 1)) };
-                    let y = if self.r.chance(1, 3) { Sym::Scalar(self.elem(1)) } else { let k = self.r.pick(&[1usize, n]); Sym::Vector(self.vec(k, 1)) };
-                    self.case("Where", vec![], 1, vec![Self::inp('i', cond), Self::inp('i', x), Self::inp('i', y)])
-                } else {
-                    let (a, b) = self.bcast_pair();
-                    let (_, c) = self.bcast_pair();
-                    self.case("Where", vec![], 1, vec![Self::inpd('i', a, vec![1, 0]), Self::inp('f', b), Self::inp('f', c)])
-                }
-            }
-            6 => { // Shape
-                let mut attrs = vec![];
-                if self.r.chance(1, 2) { attrs.push(("start", Attr::Int(self.r.below(9) as i64 - 4))); }
-                if self.r.chance(1, 2) { attrs.push(("end", Attr::Int(self.r.below(9) as i64 - 4))); }
-                let t = self.any_tensor();
-                self.case("Shape", attrs, 1, vec![Self::inp('i', t)])
-            }
-            7 => { let t = self.any_tensor(); self.case("Size", vec![], 1, vec![Self::inp('i', t)]) }
-            8 | 9 => { // Gather
-                if self.r.chance(1, 2) {
-                    let n = 1 + self.r.below(4) as usize;
-                    let data = Sym::Vector(self.vec(n, 1));
-                    let idx = |g: &mut G| g.r.below(2 * n as u64 + 3) as i32 - n as i32 - 1;
-                    let ind = match self.r.below(4) {
-                        0 => Sym::Scalar(v(idx(self))),
-                        1 => { let k = self.r.below(3) as usize; Sym::Vector((0..k).map(|_| v(idx(self))).collect()) }
-                        2 => Sym::Scalar(self.sym(true)),
-                        _ => Sym::Shape(vec![v(2)]),
-                    };
-                    let axis = self.r.pick(&[0i64, 0, -1, 1]);
-                    self.case("Gather", vec![("axis", Attr::Int(axis))], 1, vec![Self::inp('i', data), Self::inpd('i', ind, vec![0])])
-                } else {
-                    let rk = 1 + self.r.below(3) as usize;
-                    let data = Sym::Shape(self.shape(rk));
-                    let ind = match self.r.below(4) { 0 => Sym::Scalar(v(0)), 1 => Sym::Vector(self.ivals(&[0, 0])), 2 => Sym::Unknown(vec![2]), _ => { let k = self.r.below(3) as usize; Sym::Shape(self.shape(k)) } };
-                    let axis = self.r.below(2 * rk as u64 + 2) as i64 - rk as i64 - 1;
-                    self.case("Gather", vec![("axis", Attr::Int(axis))], 1, vec![Self::inp('f', data), Self::inpd('i', ind, vec![0])])
-                }
-            }
-            10 | 11 => { // Concat
-                let n = 1 + self.r.below(3) as usize;
-                if self.r.chance(1, 2) {
-                    let ins: Vec<Input> = (0..n).map(|_| { let k = self.r.below(3) as usize; let t = if self.r.chance(1, 8) { Sym::Scalar(self.elem(1)) } else { Sym::Vector(self.vec(k, 1)) }; Self::inp('i', t) }).collect();
-                    let axis = self.r.pick(&[0i64, 0, 0, -1, 1]);
-                    self.case("Concat", vec![("axis", Attr::Int(axis))], 1, ins)
-                } else {
-                    let rk = 1 + self.r.below(3) as usize;
-                    let base = self.shape(rk);
-                    let axis = self.r.below(2 * rk as u64 + 2) as i64 - rk as i64 - 1;
-                    let ins: Vec<Input> = (0..n).map(|_| {
-                        let mut s = base.clone();
-                        let ax = ((axis + rk as i64) % rk as i64).max(0) as usize;
-                        if ax < rk { s[ax] = self.dim(); }
-                        let t = if self.r.chance(1, 10) { Sym::Unknown(vec![2; rk]) } else { Sym::Shape(s) };
-                        Self::inp('f', t)
-                    }).collect();
-                    self.case("Concat", vec![("axis", Attr::Int(axis))], 1, ins)
-                }
-            }
-            12 | 13 => { // Squeeze
-                let data = match self.r.below(5) {
-                    0 => Sym::Vector(self.vec(1, 1)),
-                    1 => Sym::Vector(self.vec(2, 1)),
-                    _ => { let rk = self.rank(); let mut s = self.shape(rk); for d in s.iter_mut() { if self.r.chance(1, 2) { *d = v(1); } } Sym::Shape(s) }
-                };
-                let rk = match &data { Sym::Shape(s) => s.len() as i64, _ => 1 };
-                let axes = match self.r.below(6) {
-                    0 => Sym::Missing,
-                    1 | 2 => { let k = self.r.below(3) as usize; Sym::Vector((0..k).map(|_| v((self.r.below(2 * rk as u64 + 3) as i64 - rk - 1) as i32)).collect()) }
-                    3 => Sym::Vector(vec![self.sym(true)]),
-                    4 => Sym::Shape(vec![v(self.r.below(2) as i32)]),
-                    _ => Sym::Scalar(v(0)),
-                };
-                let dt = if matches!(data, Sym::Vector(_)) { 'i' } else { 'f' };
-                self.case("Squeeze", vec![], 1, vec![Self::inp(dt, data), Self::inpd('i', axes, vec![0])])
-            }
-            14 | 15 => { // Unsqueeze
-                let data = match self.r.below(5) { 0 => Sym::Scalar(self.elem(1)), 1 => { let k = self.r.below(3) as usize; Sym::Vector(self.vec(k, 1)) } _ => { let rk = self.r.below(4) as usize; Sym::Shape(self.shape(rk)) } };
-                let rk = match &data { Sym::Shape(s) => s.len() as i64, Sym::Vector(_) => 1, _ => 0 };
-                let k = 1 + self.r.below(2) as i64;
-                let axes = match self.r.below(6) {
-                    0 => Sym::Scalar(v(0)),
-                    1 => Sym::Vector(vec![self.sym(true)]),
-                    2 => Sym::Shape(vec![v(1)]),
-                    _ => Sym::Vector((0..k).map(|_| v((self.r.below(2 * (rk + k) as u64 + 2) as i64 - (rk + k) - 1) as i32)).collect()),
-                };
-                let dt = if matches!(data, Sym::Shape(_)) { 'f' } else { 'i' };
-                self.case("Unsqueeze", vec![], 1, vec![Self::inp(dt, data), Self::inpd('i', axes, vec![0])])
-            }
-            16 => { // Transpose
-                let rk = self.r.below(5) as usize;
-                let t = if self.r.chance(1, 8) { Sym::Unknown(vec![2; rk]) } else { Sym::Shape(self.shape(rk)) };
-                let mut attrs = vec![];
-                if self.r.chance(2, 3) {
-                    let mut p: Vec<i64> = (0..rk as i64).collect();
-                    for i in (1..p.len()).rev() { let j = self.r.below(i as u64 + 1) as usize; p.swap(i, j); }
-                    if self.r.chance(1, 8) && !p.is_empty() { p[0] = rk as i64; }
-                    attrs.push(("perm", Attr::Ints(p)));
-                }
-                self.case("Transpose", attrs, 1, vec![Self::inp('f', t)])
-            }
-            17 | 18 => { // reductions
-                let op = if self.r.chance(1, 4) { self.r.pick(&["ArgMax", "ArgMin"]) } else { self.r.pick(REDUCE_OPS) };
-                let rk = self.r.below(4) as usize;
-                let mut s = self.shape(rk);
-                for d in s.iter_mut() { if *d == v(0) { *d = v(2); } }
-                let data = if self.r.chance(1, 10) { Sym::Unknown(vec![2; rk]) } else { Sym::Shape(s) };
-                let keep = self.r.below(2) as i64;
-                let ax = |g: &mut G| g.r.below(2 * rk as u64 + 2) as i64 - rk as i64 - 1;
-                if op.starts_with("Arg") {
-                    let a = ax(self);
-                    self.case(op, vec![("axis", Attr::Int(a)), ("keepdims", Attr::Int(keep))], 1, vec![Self::inp('f', data)])
-                } else {
-                    let mut attrs = vec![("keepdims", Attr::Int(keep))];
-                    if self.r.chance(1, 4) { attrs.push(("noop_with_empty_axes", Attr::Int(1))); }
-                    let mut ins = vec![Self::inp('f', data)];
-                    match self.r.below(5) {
-                        0 => {}
-                        1 => ins.push(Self::inpd('i', Sym::Vector(vec![]), vec![])),
-                        2 => ins.push(Self::inpd('i', Sym::Shape(vec![v(1)]), vec![0])),
-                        _ => { let k = 1 + self.r.below(2) as usize; let l: Vec<SymExpr> = (0..k).map(|_| v(ax(self) as i32)).collect(); ins.push(Self::inp('i', Sym::Vector(l))) }
-                    }
-                    self.case(op, attrs, 1, ins)
-                }
-            }
-            19 => { // MatMul / Gemm
-                if self.r.chance(1, 2) {
-                    let k = self.dim();
-                    let ra = self.r.below(3) as usize; let rb = self.r.below(3) as usize;
-                    let mut a = self.shape(ra); a.push(self.dim()); a.push(k.clone());
-                    let mut b = self.shape(rb); b.push(if self.r.chance(5, 6) { k } else { self.dim() }); b.push(self.dim());
-                    if ra > 0 && rb > 0 && self.r.chance(1, 2) { let n = ra.min(rb); for i in 0..n { b[rb - 1 - i] = a[ra - 1 - i].clone(); } }
-                    let (a, b) = if self.r.chance(1, 10) { (vec![self.dim()], b) } else { (a, b) };
-                    self.case("MatMul", vec![], 1, vec![Self::inp('f', Sym::Shape(a)), Self::inp('f', Sym::Shape(b))])
-                } else {
-                    let (ta, tb) = (self.r.below(2) as i64, self.r.below(2) as i64);
-                    let (m, k, n) = (self.dim(), self.dim(), self.dim());
-                    let a = if ta == 1 { vec![k.clone(), m] } else { vec![m, k.clone()] };
-                    let b = if tb == 1 { vec![n, k] } else { vec![k, n] };
-                    let a = if self.r.chance(1, 10) { Sym::Unknown(vec![2, 2]) } else { Sym::Shape(a) };
-                    self.case("Gemm", vec![("transA", Attr::Int(ta)), ("transB", Attr::Int(tb))], 1, vec![Self::inp('f', a), Self::inp('f', Sym::Shape(b))])
-                }
-            }
-            20 => { // ConstantOfShape
-                let shape = match self.r.below(6) {
-                    0 => Sym::Vector(vec![]),
-                    1 => Sym::Vector(vec![v(self.r.below(5) as i32 - 1)]),
-                    2 => Sym::Vector(vec![self.small_elem()]),
-                    3 => { let k = 2 + self.r.below(2) as usize; Sym::Vector((0..k).map(|_| self.small_elem()).collect()) }
-                    4 => Sym::Shape(vec![v(self.r.below(4) as i32)]),
-                    _ => Sym::Unknown(vec![2]),
-                };
-                let mut attrs = vec![];
-                match self.r.below(3) { 0 => {}, 1 => attrs.push(("value", Attr::Tensor('i', vec![1], vec![self.r.below(7) as i64 - 3]))), _ => attrs.push(("value", Attr::Tensor('f', vec![1], vec![2]))) }
-                self.case("ConstantOfShape", attrs, 1, vec![Self::inpd('i', shape, vec![2])])
-            }
-            21 => { // Range
-                let pat = self.r.below(6);
-                let (s, l, d) = match pat {
-                    0 => (v(self.r.below(7) as i32 - 3), v(self.r.below(12) as i32 - 4), v(self.r.pick(&[1, 1, 2, -1, -2, 3, 0]))),
-                    1 => (v(0), self.small_elem(), v(1)),
-                    2 => { let s = self.small_elem(); (s.clone(), bin("+", s, self.small_elem()), v(1)) }
-                    3 => (self.small_elem(), self.small_elem(), v(1)),
-                    4 => (v(0), v(2000 + self.r.below(100) as i32), v(1)),
-                    _ => (self.small_elem(), self.small_elem(), self.small_elem()),
-                };
-                let wrap = |g: &mut G, e: SymExpr| if g.r.chance(1, 6) { Sym::Vector(vec![e]) } else { Sym::Scalar(e) };
-                let (s, l, d) = (wrap(self, s), wrap(self, l), wrap(self, d));
-                self.case("Range", vec![], 1, vec![Self::inp('i', s), Self::inp('i', l), Self::inp('i', d)])
-            }
-            22 => { // Cast / Identity / Neg
-                let t = self.any_tensor();
-                let dt = if matches!(t, Sym::Shape(_) | Sym::Unknown(_)) { self.r.pick(&['f', 'i']) } else { 'i' };
-                match self.r.below(3) {
-                    0 => { let to = self.r.pick(&[1i64, 6, 7]); self.case("Cast", vec![("to", Attr::Int(to))], 1, vec![Self::inp(dt, t)]) }
-                    1 => self.case("Identity", vec![], 1, vec![Self::inp(dt, t)]),
-                    _ => self.case("Neg", vec![], 1, vec![Self::inp(dt, t)]),
-                }
-            }
-            _ => { // unary
-                let op = self.r.pick(UNARY_OPS);
-                let t = self.any_tensor();
-                let dt = if op == "Not" { 'i' } else { 'f' };
-                let t = match t { Sym::Scalar(_) | Sym::Vector(_) if dt == 'f' => Sym::Shape(self.shape(2)), t => t };
-                self.case(op, vec![], 1, vec![Self::inp(dt, t)])
+    }).collect();
+    let xin = Input { dt: 'f', sym: Sym::Shape(dims.clone()), data: None };
+    let mut insts = vec![];
+    let mut ran = 0;
+    for env in &envs {
+        let (shape, data) = match concrete_input(&xin, env) { Ok(Some(x)) => x, _ => continue };
+        // every value is requested separately; a value that cannot be computed gets an unknown-shaped
+        // placeholder that no claim can hold of, so it is excluded by running only the computable prefix
+        let mut couts = vec![];
+        for n in &vals {
+            let x = make_value('f', &shape, &data);
+            match no_panic(|| vg.run(vec![("v0".to_string(), x)], &[n.as_str()])) {
+                Some(Ok(v)) => couts.push(value_to_coq(&v[0])),
+                _ => break,
             }
         }
+        if !couts.is_empty() { ran += 1; }
+        insts.push(format!("{{| i_env := {}; i_in := [Some {}]; i_out := Some [{}] |}}", env_to_coq(env), ctensor_to_coq(&shape, None), couts.join("; ")));
     }
-
-    fn range_elem(&mut self) -> SymExpr {
-        match self.r.below(10) {
-            0 => SymExpr::Neg(self.sym(true).into()),
-            1 => bin("*", v(-2), self.sym(true)),
-            2 => bin("+", v(2), v(3)),
-            3 => v(self.r.below(7) as i32 - 3),
-            4 => self.sym(true),
-            5 => self.sym(false),
-            6 => bin("+", self.sym(true), v(1)),
-            7 => bin("-", self.sym(true), self.sym(true)),
-            8 => bin("/", v(-10), v(-2)),
-            _ => self.elem(2),
-        }
-    }
-    fn bcast_pair(&mut self) -> (Sym, Sym) {
-        let ra = self.rank(); let rb = self.rank();
-        let a = self.shape(ra);
-        let mut b = self.shape(rb);
-        // make most trailing dims compatible
-        for i in 0..ra.min(rb) {
-            if self.r.chance(3, 5) {
-                b[rb - 1 - i] = match self.r.below(3) { 0 => v(1), _ => a[ra - 1 - i].clone() };
-            }
-        }
-        let a = if self.r.chance(1, 15) { Sym::Unknown(vec![1; ra]) } else { Sym::Shape(a) };
-        (a, Sym::Shape(b))
-    }
-    fn value_pair(&mut self) -> (Sym, Sym) {
-        let n = self.r.pick(&[0usize, 1, 2, 2, 3]);
-        let mk = |g: &mut G, n: usize| -> Sym {
-            match g.r.below(6) { 0 => Sym::Scalar(g.elem(2)), 1 => Sym::Vector(g.vec(1, 2)), _ => Sym::Vector(g.vec(n, 2)) }
-        };
-        (mk(self, n), mk(self, n))
-    }
-
-    // ---------------- all operators offering inference: valid-ish instances with symbolic dims
-    fn gen_any(&mut self) -> String {
-        let f = |s: Vec<SymExpr>| Self::inp('f', Sym::Shape(s));
-        let i32s = |l: &[i32]| Self::inp('i', Sym::Vector(l.iter().map(|x| v(*x)).collect()));
-        let (a, b, c, d) = (mk_var(0, true), mk_var(1, true), mk_var(2, true), mk_var(3, true));
-        match self.r.below(46) {
-            0 => { let op = self.r.pick(&["Max", "Min", "Sum", "Mean"]); let n = 1 + self.r.below(3) as usize;
-                   let (x, y) = self.bcast_pair(); let (_, z) = self.bcast_pair();
-                   let mut ins = vec![Self::inp('f', x)]; if n > 1 { ins.push(Self::inp('f', y)); } if n > 2 { ins.push(Self::inp('f', z)); }
-                   self.case(op, vec![], 1, ins) }
-            1 => { let ax = self.r.pick(&[0i64, 1, -1, 2]); let s = { let rk = 1 + self.r.below(3) as usize; self.shape(rk) };
-                   self.case("Flatten", vec![("axis", Attr::Int(ax))], 1, vec![f(s)]) }
-            2 => { // Reshape with constant / symbolic shape
-                   let data = { let rk = self.rank(); self.shape(rk) };
-                   let shp = match self.r.below(6) {
-                       0 => Sym::Vector(self.ivals(&[-1])),
-                       1 => Sym::Vector(vec![v(0), v(-1)]),
-                       2 => Sym::Vector(vec![self.small_elem(), v(-1)]),
-                       3 => Sym::Vector(vec![v(2), self.small_elem()]),
-                       4 => Sym::Shape(vec![v(2)]),
-                       _ => { let k = self.r.below(3) as usize; Sym::Vector((0..k).map(|_| self.small_elem()).collect()) }
-                   };
-                   let az = self.r.below(2) as i64;
-                   self.case("Reshape", vec![("allowzero", Attr::Int(az))], 1, vec![f(data), Self::inpd('i', shp, vec![1, -1])]) }
-            3 => { // Reshape of value tensors
-                   let data = self.value_tensor(1);
-                   let shp = match self.r.below(4) { 0 => Sym::Vector(vec![]), 1 => Sym::Vector(self.ivals(&[-1])), 2 => Sym::Vector(self.ivals(&[1])), _ => Sym::Vector(vec![self.small_elem()]) };
-                   self.case("Reshape", vec![], 1, vec![Self::inp('i', data), Self::inp('i', shp)]) }
-            4 => { let data = { let rk = self.rank(); self.shape(rk) };
-                   let shp = match self.r.below(4) { 0 => Sym::Shape(vec![v(self.r.below(4) as i32)]), 1 => Sym::Unknown(vec![2]),
-                                                      _ => { let k = self.r.below(4) as usize; Sym::Vector((0..k).map(|_| self.small_elem()).collect()) } };
-                   self.case("Expand", vec![], 1, vec![f(data), Self::inpd('i', shp, vec![1, 2])]) }
-            5 => { let rk = self.r.below(4) as usize; let data = self.shape(rk);
-                   let rep = match self.r.below(3) { 0 => Sym::Shape(vec![v(rk as i32)]), _ => Sym::Vector((0..rk).map(|_| self.small_elem()).collect()) };
-                   self.case("Tile", vec![], 1, vec![f(data), Self::inpd('i', rep, vec![2])]) }
-            6 => { // Slice, constant parameters
-                   let rk = 1 + self.r.below(3) as usize; let data = self.shape(rk);
-                   let k = 1 + self.r.below(rk as u64) as usize;
-                   let st: Vec<i32> = (0..k).map(|_| self.r.below(7) as i32 - 3).collect();
-                   let en: Vec<i32> = (0..k).map(|_| self.r.pick(&[0, 1, 2, 3, 5, -1, -2, 2147483647])).collect();
-                   let mut ins = vec![f(data), i32s(&st), i32s(&en)];
-                   if self.r.chance(2, 3) { let axes: Vec<i32> = (0..k as i32).map(|i| if self.r.chance(1, 4) { i - rk as i32 } else { i }).collect(); ins.push(i32s(&axes));
-                       if self.r.chance(1, 2) { let steps: Vec<i32> = (0..k).map(|_| self.r.pick(&[1, 1, 2, -1, -2, 3])).collect(); ins.push(i32s(&steps)); } }
-                   self.case("Slice", vec![], 1, ins) }
-            7 => { // Slice, symbolic parameters
-                   let data = vec![self.dim(), self.dim()];
-                   let st = Sym::Vector(vec![self.small_elem()]); let en = Sym::Vector(vec![self.small_elem()]);
-                   let mut ins = vec![f(data), Self::inp('i', st), Self::inp('i', en), i32s(&[self.r.pick(&[0, 1, -1])])];
-                   if self.r.chance(1, 3) { ins.push(Self::inp('i', Sym::Vector(vec![self.small_elem()]))); }
-                   self.case("Slice", vec![], 1, ins) }
-            8 => { // Slice of a value vector
-                   let n = 1 + self.r.below(4) as usize; let data = Sym::Vector(self.vec(n, 1));
-                   let st = self.r.below(7) as i32 - 3; let en = self.r.pick(&[0, 1, 2, 3, 5, -1, 2147483647]);
-                   let mut ins = vec![Self::inp('i', data), i32s(&[st]), i32s(&[en])];
-                   if self.r.chance(1, 2) { ins.push(i32s(&[0])); if self.r.chance(1, 2) { ins.push(i32s(&[self.r.pick(&[1, 1, 2, -1])])); } }
-                   self.case("Slice", vec![], 1, ins) }
-            9 => { let rk = 1 + self.r.below(3) as usize; let data = self.shape(rk);
-                   let ax = self.r.below(rk as u64) as i64; let n = 1 + self.r.below(3) as usize;
-                   let mut ins = vec![f(data)];
-                   let mut attrs = vec![("axis", Attr::Int(if self.r.chance(1, 3) { ax - rk as i64 } else { ax }))];
-                   if self.r.chance(1, 2) { ins.push(Self::inp('i', Sym::Vector((0..n).map(|_| self.small_elem()).collect()))); } else { attrs.push(("num_outputs", Attr::Int(n as i64))); }
-                   self.case("Split", attrs, n, ins) }
-            10 => { let rk = 1 + self.r.below(3) as usize; let data = self.shape(rk);
-                    let pads = match self.r.below(3) { 0 => Sym::Shape(vec![v(2 * rk as i32)]), _ => Sym::Vector((0..2 * rk).map(|_| if self.r.chance(1, 4) { self.small_elem() } else { v(self.r.below(3) as i32) }).collect()) };
-                    self.case("Pad", vec![], 1, vec![f(data), Self::inpd('i', pads, vec![1])]) }
-            11 => { let rk = self.r.below(3) as usize; let idx = self.shape(rk);
-                    let depth = match self.r.below(3) { 0 => Sym::Scalar(v(3)), 1 => Sym::Scalar(self.sym(true)), _ => Sym::Vector(vec![v(2)]) };
-                    let ax = self.r.below(2 * rk as u64 + 3) as i64 - rk as i64 - 1;
-                    self.case("OneHot", vec![("axis", Attr::Int(ax))], 1, vec![Self::inpd('i', Sym::Shape(idx), vec![0, 1]), Self::inp('i', depth), Self::inpd('f', Sym::Shape(vec![v(2)]), vec![0, 1])]) }
-            12 => { let s = { let rk = self.rank(); self.shape(rk) }; self.case("NonZero", vec![], 1, vec![Self::inpd('f', Sym::Shape(s), vec![0, 1, 2])]) }
-            13 => { let rk = 1 + self.r.below(3) as usize; let mut s = self.shape(rk); let ax = self.r.below(rk as u64) as usize; s[ax] = v(3 + self.r.below(3) as i32);
-                    let k = match self.r.below(3) { 0 => Sym::Vector(vec![v(2)]), 1 => Sym::Vector(vec![self.sym(true)]), _ => Sym::Shape(vec![v(1)]) };
-                    self.case("TopK", vec![("axis", Attr::Int(ax as i64))], 2, vec![f(s), Self::inpd('i', k, vec![1])]) }
-            14 => { let (n, ch, h, w) = (self.dim(), self.r.pick(&[v(1), v(2), c.clone()]), self.r.pick(&[v(4), v(5), a.clone()]), self.r.pick(&[v(4), b.clone()]));
-                    let k = self.r.pick(&[1i64, 2, 3]); let oc = self.r.pick(&[v(1), v(3), d.clone()]);
-                    let mut attrs = vec![("kernel_shape", Attr::Ints(vec![k, k]))];
-                    match self.r.below(4) { 0 => attrs.push(("pads", Attr::Ints(vec![1, 1, 1, 1]))), 1 => attrs.push(("auto_pad", Attr::Str("SAME_UPPER".into()))), 2 => attrs.push(("strides", Attr::Ints(vec![2, 2]))), _ => {} }
-                    if self.r.chance(1, 4) { attrs.push(("dilations", Attr::Ints(vec![2, 1]))); }
-                    let mut ins = vec![f(vec![n, ch.clone(), h, w]), f(vec![oc.clone(), ch, v(k as i32), v(k as i32)])];
-                    if self.r.chance(1, 2) { ins.push(f(vec![oc])); }
-                    self.case("Conv", attrs, 1, ins) }
-            15 => { let (n, ch, h, w) = (self.dim(), self.r.pick(&[v(2), c.clone()]), self.r.pick(&[v(3), a.clone()]), self.r.pick(&[v(4), b.clone()]));
-                    let mut attrs = vec![("kernel_shape", Attr::Ints(vec![2, 2]))];
-                    match self.r.below(4) { 0 => attrs.push(("strides", Attr::Ints(vec![2, 2]))), 1 => attrs.push(("pads", Attr::Ints(vec![1, 0, 1, 0]))), 2 => attrs.push(("output_padding", Attr::Ints(vec![1, 1]))), _ => {} }
-                    if attrs.iter().any(|(n, _)| *n == "output_padding") { attrs.push(("strides", Attr::Ints(vec![2, 2]))); }
-                    self.case("ConvTranspose", attrs, 1, vec![f(vec![n, ch.clone(), h, w]), f(vec![ch, v(3), v(2), v(2)])]) }
-            16 => { let op = self.r.pick(&["MaxPool", "AveragePool"]);
-                    let (n, ch, h, w) = (self.dim(), self.dim(), self.r.pick(&[v(4), v(5), a.clone()]), self.r.pick(&[v(6), b.clone()]));
-                    let mut attrs = vec![("kernel_shape", Attr::Ints(vec![2, self.r.pick(&[2i64, 3])]))];
-                    match self.r.below(4) { 0 => attrs.push(("strides", Attr::Ints(vec![2, 2]))), 1 => attrs.push(("pads", Attr::Ints(vec![1, 1, 1, 1]))), 2 => attrs.push(("auto_pad", Attr::Str("SAME_UPPER".into()))), _ => {} }
-                    if self.r.chance(1, 4) { attrs.push(("ceil_mode", Attr::Int(1))); }
-                    self.case(op, attrs, 1, vec![f(vec![n, ch, h, w])]) }
-            17 => { let op = self.r.pick(&["GlobalAveragePool", "GlobalMaxPool"]); let s = vec![self.dim(), self.dim(), a.clone(), v(3)]; self.case(op, vec![], 1, vec![f(s)]) }
-            18 => { let ch = self.r.pick(&[v(2), c.clone()]); let s = vec![self.dim(), ch.clone(), a.clone(), v(2)];
-                    self.case("BatchNormalization", vec![], 1, vec![f(s), f(vec![ch.clone()]), f(vec![ch.clone()]), f(vec![ch.clone()]), f(vec![ch])]) }
-            19 => { let ch = self.r.pick(&[v(2), c.clone()]); let s = vec![self.dim(), ch.clone(), a.clone(), v(2)];
-                    self.case("InstanceNormalization", vec![], 1, vec![f(s), f(vec![ch.clone()]), f(vec![ch])]) }
-            20 => { let last = self.r.pick(&[v(3), c.clone()]); let s = vec![self.dim(), a.clone(), last.clone()];
-                    let op = self.r.pick(&["LayerNormalization", "RMSNormalization"]);
-                    let mut ins = vec![f(s), f(vec![last.clone()])]; if op == "LayerNormalization" && self.r.chance(1, 2) { ins.push(f(vec![last])); }
-                    self.case(op, vec![("axis", Attr::Int(-1))], 1, ins) }
-            21 => { let s = vec![self.dim(), a.clone()]; let ax = self.r.pick(&[0i64, 1, -1]); self.case("LpNormalization", vec![("axis", Attr::Int(ax))], 1, vec![f(s)]) }
-            22 => { let s = vec![v(1), v(2), self.r.pick(&[v(3), a.clone()]), self.r.pick(&[v(4), b.clone()])];
-                    let mode = self.r.pick(&["nearest", "linear"]);
-                    if self.r.chance(1, 2) {
-                        let sc = Self::inpd('f', Sym::Shape(vec![v(4)]), vec![1, 1, 2, 2]);
-                        self.case("Resize", vec![("mode", Attr::Str(mode.into()))], 1, vec![f(s), Self::inp('f', Sym::Missing), sc])
-                    } else {
-                        let sizes = match self.r.below(2) { 0 => Sym::Vector(vec![v(1), v(2), v(5), self.small_elem()]), _ => Sym::Vector(self.ivals(&[1, 2, 6, 3])) };
-                        self.case("Resize", vec![("mode", Attr::Str(mode.into()))], 1, vec![f(s), Self::inp('f', Sym::Missing), Self::inp('f', Sym::Missing), Self::inp('i', sizes)])
-                    } }
-            23 => { let eq = self.r.pick(&["ij,jk->ik", "bij,bjk->bik", "ij->ji", "ii->i", "ij,j->i", "i,i->", "...ij,...jk->...ik"]);
-                    let ins = match eq { "ij->ji" => vec![f(vec![a.clone(), self.dim()])], "ii->i" => vec![f(vec![a.clone(), a.clone()])],
-                        "ij,j->i" => vec![f(vec![self.dim(), b.clone()]), f(vec![b.clone()])], "i,i->" => vec![f(vec![a.clone()]), f(vec![a.clone()])],
-                        "bij,bjk->bik" | "...ij,...jk->...ik" => vec![f(vec![c.clone(), self.dim(), b.clone()]), f(vec![c.clone(), b.clone(), self.dim()])],
-                        _ => vec![f(vec![self.dim(), b.clone()]), f(vec![b.clone(), self.dim()])] };
-                    self.case("Einsum", vec![("equation", Attr::Str(eq.into()))], 1, ins) }
-            24 => { let k = self.r.pick(&[v(2), b.clone()]);
-                    let x = Self::inp('u', Sym::Shape(vec![self.dim(), k.clone()])); let y = Self::inp(self.r.pick(&['b', 'u']), Sym::Shape(vec![k, self.dim()]));
-                    self.case("MatMulInteger", vec![], 1, vec![x, y]) }
-            25 => { let s = { let rk = 1 + self.r.below(3) as usize; self.shape(rk) };
-                    let dt = self.r.pick(&['b', 'u']);
-                    self.case("DequantizeLinear", vec![], 1, vec![Self::inp(dt, Sym::Shape(s)), Self::inpd('f', Sym::Shape(vec![]), vec![2]), Self::inpd(dt, Sym::Shape(vec![]), vec![1])]) }
-            26 => { let s = { let rk = 1 + self.r.below(3) as usize; self.shape(rk) };
-                    let dt = self.r.pick(&['b', 'u']);
-                    self.case("QuantizeLinear", vec![], 1, vec![f(s), Self::inpd('f', Sym::Shape(vec![]), vec![2]), Self::inpd(dt, Sym::Shape(vec![]), vec![1])]) }
-            27 => { let mut s = { let rk = 1 + self.r.below(2) as usize; self.shape(rk) }; for x in s.iter_mut() { if *x == v(0) { *x = v(2); } }
-                    self.case("DynamicQuantizeLinear", vec![], 3, vec![f(s)]) }
-            28 => { let rk = 1 + self.r.below(3) as usize; let data = self.shape(rk); let idx = self.shape(rk);
-                    let ax = self.r.below(rk as u64) as i64; self.case("GatherElements", vec![("axis", Attr::Int(ax))], 1, vec![f(data), Self::inpd('i', Sym::Shape(idx), vec![0])]) }
-            29 => { let rk = 1 + self.r.below(3) as usize; let data = self.shape(rk); let t = 1 + self.r.below(rk as u64) as i32;
-                    let mut idx = { let k = self.r.below(2) as usize; self.shape(k) }; idx.push(if self.r.chance(1, 6) { self.sym(true) } else { v(t) });
-                    self.case("GatherND", vec![], 1, vec![f(data), Self::inpd('i', Sym::Shape(idx), vec![0])]) }
-            30 => { let rk = 1 + self.r.below(3) as usize; let data = self.shape(rk); let idx = self.shape(rk);
-                    let ax = self.r.below(rk as u64) as i64; self.case("ScatterElements", vec![("axis", Attr::Int(ax))], 1, vec![f(data), Self::inpd('i', Sym::Shape(idx.clone()), vec![0]), f(idx)]) }
-            31 => { let data = vec![self.dim(), self.dim()]; let k = self.dim();
-                    self.case("ScatterND", vec![], 1, vec![f(data.clone()), Self::inpd('i', Sym::Shape(vec![k.clone(), v(1)]), vec![0]), f(vec![k, data[1].clone()])]) }
-            32 => { let s = vec![self.dim(), self.dim()]; let mut ins = vec![f(s)]; if self.r.chance(1, 2) { ins.push(Self::inp('i', Sym::Scalar(v(self.r.below(3) as i32 - 1)))); }
-                    let up = self.r.below(2) as i64; self.case("Trilu", vec![("upper", Attr::Int(up))], 1, ins) }
-            33 => { let s = { let rk = 1 + self.r.below(3) as usize; self.shape(rk) }; let ax = Self::inp('i', Sym::Scalar(v(0)));
-                    self.case("CumSum", vec![], 1, vec![f(s), ax]) }
-            34 => { let s = vec![self.dim(), self.dim()]; self.case("EyeLike", vec![], 1, vec![f(s)]) }
-            35 => { let s = { let rk = self.rank(); self.shape(rk) }; let slope = match self.r.below(2) { 0 => vec![], _ => vec![v(1)] };
-                    self.case("PRelu", vec![], 1, vec![f(s), f(slope)]) }
-            36 => { let s = { let rk = self.rank(); self.shape(rk) }; let like = self.r.pick(&['f', 'i']);
-                    self.case("CastLike", vec![], 1, vec![f(s), Self::inp(like, Sym::Shape(vec![]))]) }
-            37 => { let s = vec![v(1), self.r.pick(&[v(4), v(8), c.clone()]), a.clone(), self.dim()];
-                    let mode = self.r.pick(&["DCR", "CRD"]); self.case("DepthToSpace", vec![("blocksize", Attr::Int(2)), ("mode", Attr::Str(mode.into()))], 1, vec![f(s)]) }
-            38 => { let s = { let rk = self.rank(); self.shape(rk) }; let mut ins = vec![f(s)];
-                    if self.r.chance(1, 2) { ins.push(Self::inpd('f', Sym::Shape(vec![]), vec![0])); }
-                    self.case("Dropout", vec![], 2, ins) }
-            39 => { let s = vec![self.dim(), self.dim()]; let mut ins = vec![f(s)];
-                    if self.r.chance(1, 2) { ins.push(Self::inpd('f', Sym::Shape(vec![]), vec![0])); ins.push(Self::inpd('f', Sym::Shape(vec![]), vec![5])); }
-                    self.case("Clip", vec![], 1, ins) }
-            40 => { let (seq, batch, inp, hid) = (self.r.pick(&[v(2), a.clone()]), self.r.pick(&[v(1), b.clone()]), v(3), 2);
-                    let op = self.r.pick(&["LSTM", "GRU"]); let g = if op == "LSTM" { 4 } else { 3 };
-                    let bidir = self.r.chance(1, 3); let nd = if bidir { 2 } else { 1 };
-                    let mut attrs = vec![("hidden_size", Attr::Int(hid as i64))]; if bidir { attrs.push(("direction", Attr::Str("bidirectional".into()))); }
-                    self.case(op, attrs, if op == "LSTM" { 3 } else { 2 }, vec![f(vec![seq, batch, inp]), f(vec![v(nd), v(g * hid), v(3)]), f(vec![v(nd), v(g * hid), v(hid)])]) }
-            41 => { let s = vec![self.dim(), self.r.pick(&[v(3), c.clone()])]; let last = s[1].clone();
-                    self.case("SkipLayerNormalization@com.microsoft", vec![("epsilon", Attr::Float(0.00001))], 4, vec![f(s.clone()), f(s), f(vec![last])]) }
-            42 => { let k = self.r.pick(&[v(2), b.clone()]);
-                    let x = Self::inp('u', Sym::Shape(vec![v(1), k.clone(), v(4), a.clone()])); let w = Self::inp('u', Sym::Shape(vec![v(2), k, v(2), v(2)]));
-                    self.case("ConvInteger", vec![("kernel_shape", Attr::Ints(vec![2, 2]))], 1, vec![x, w]) }
-            43 => { let s = vec![v(1), v(1), self.r.pick(&[v(3), a.clone()]), v(3)]; let sc = Self::inpd('f', Sym::Shape(vec![v(4)]), vec![1, 1, 2, 2]);
-                    self.case("Upsample", vec![("mode", Attr::Str("nearest".into()))], 1, vec![f(s), sc]) }
-            44 => { let x = f(vec![self.dim(), v(2), v(3), v(3)]); let grid = Self::inpd('f', Sym::Shape(vec![self.dim(), a.clone(), v(2), v(2)]), vec![0]);
-                    self.case("GridSample", vec![], 1, vec![x, grid]) }
-            _ => { let nb = self.r.pick(&[v(1), a.clone()]); let n = self.r.pick(&[v(3), b.clone()]);
-                   let boxes = Self::inpd('f', Sym::Shape(vec![nb.clone(), n.clone(), v(4)]), vec![0, 0, 1, 1]);
-                   let scores = Self::inpd('f', Sym::Shape(vec![nb, v(1), n]), vec![1]);
-                   self.case("NonMaxSuppression", vec![], 1, vec![boxes, scores, Self::inpd('i', Sym::Shape(vec![]), vec![2]), Self::inpd('f', Sym::Shape(vec![]), vec![1]), Self::inpd('f', Sym::Shape(vec![]), vec![0])]) }
-        }
-    }
+    let tag = format!("diff:graph{}:ok:{}", ops.len().min(6), if ran > 0 { "ran" } else { "norun" });
+    (tag, format!("{{| c_name := \"graph\"%string; c_op := OOther; c_in := [{}]; c_res := (IOk [{}]); c_insts := [{}] |}}",
+                  input_to_coq(&xin), outs.join("; "), insts.join("; ")))
 }
 
 fn main() {
@@ -662,7 +286,22 @@ fn main() {
             let out = std::io::stdout();
             let mut out = out.lock();
             for k in 0..n {
-                let line = if k % 3 == 2 { g.gen_any() } else { g.gen_modelled() };
+                let line = if k % 7 == 6 {
+                    // graph chain through the real driver
+                    let rk = 1 + g.r.below(3) as usize;
+                    let dims: Vec<String> = (0..rk).map(|_| match g.r.below(5) { 0 => "au".to_string(), 1 => "bu".to_string(), 2 => "4".to_string(), 3 => "1".to_string(), _ => (2 + g.r.below(3)).to_string() }).collect();
+                    let n = 2 + g.r.below(5) as usize;
+                    let mut ops = vec!["Shape"];
+                    if g.r.chance(1, 4) { ops.clear(); }
+                    for _ in 0..n {
+                        let o = g.r.pick(GOPS);
+                        // Where's condition must be boolean (0/1): it always follows a comparison
+                        if o == "Where79" && !matches!(ops.last(), Some(&"Equal0") | Some(&"Equal3")) { ops.push(g.r.pick(&["Equal0", "Equal3"])); }
+                        ops.push(o);
+                    }
+                    let envs = g.case("X", vec![], 1, vec![]);
+                    format!("G#{}#{}#{}", dims.join(";"), ops.join(";"), envs.split('#').last().unwrap())
+                } else if k % 3 == 2 { g.gen_any() } else { g.gen_modelled() };
                 writeln!(out, "{}", line).unwrap();
             }
         }
@@ -673,7 +312,7 @@ fn main() {
             for line in stdin.lock().lines() {
                 let line = line.unwrap();
                 if line.trim().is_empty() { continue; }
-                let (tag, coq) = match no_panic(|| exec_line(&line)) {
+                let (tag, coq) = match no_panic(|| if line.starts_with("G#") { exec_graph_line(&line) } else { exec_line(&line) }) {
                     Some(x) => x,
                     None => ("trivial-harness-panic".to_string(), "{| c_name := \"\"%string; c_op := OOther; c_in := []; c_res := IPanic; c_insts := [] |}".to_string()),
                 };
